@@ -164,6 +164,10 @@ def load_program(repo=REPO, want_bin=True):
 
 def write_evidence(prop, ev):
     d = os.path.join(VERIF, 'evidence')
+    if os.path.realpath(REPO) != '/repo':
+        # runs against a scratch worktree (seed matrix, refactoring trials) must not overwrite the
+        # evidence of /repo itself
+        d = os.path.join(SCRATCH_BASE, 'bwverif.evidence.scratch')
     os.makedirs(d, exist_ok=True)
     p = os.path.join(d, prop + '.json')
     tmp = p + '.tmp.%d' % os.getpid()
